@@ -51,6 +51,7 @@ type actor struct {
 	idx   int
 	acc   *account.Account
 	weird string // non-empty: a key-less script actor (see weird.go)
+	multi *multiInfo // non-nil: an M-of-N multisig address over key-holding actors (see multisig.go)
 }
 
 func makeActors(seed uint64, n int) []*actor {
